@@ -236,6 +236,7 @@ def run(ctx):
         "locale independence: the writer's alphabet is proved; CLocalizer (setlocale(LC_NUMERIC,\"C\")) in reader and untrimmed writer is runtime behaviour and not exercised (only C locales are installed here)",
         "GeoJSON: only the geometry-object projection is modelled (Model/GeoJSON/Roundtrip.lean) and compared; the JSON library's number printing/reading is checked for exactness by the stream, no theorem",
         "hexadecimal floats / nan(...) accepted by strtod are not modelled in the reader (never written)",
+        "circular-arc envelope computation at construction time throws for some non-finite ordinates; not modelled, such generated cases are skipped by the harness (STAT skipped_nonfinite_arc_envelope)",
     ])
     proved = ctx.prove(PROPS, extra_targets=(DRV,))
     ok, out = verif.build_geos("rel")
